@@ -5,7 +5,7 @@
 package chainclients
 
 import (
-	"bytes"
+	"flag"
 	"fmt"
 	"runtime"
 	"strings"
@@ -154,17 +154,6 @@ func variant(base blk, salt uint64) blk {
 	return blk{Name: fmt.Sprintf("%s~%d", base.Name, salt), Type: base.Type, Bytes: data, Header: hdr, Hash: h, Slot: base.Slot}
 }
 
-// genBlk draws a block: a fixture or a salted variant of one.
-func genBlk(rt *rapid.T, label string) blk {
-	bs := bases()
-	b := bs[rapid.IntRange(0, nSmall()-1).Draw(rt, label+"_fixture")]
-	salt := uint64(0)
-	if rapid.IntRange(0, 3).Draw(rt, label+"_variantp") > 0 {
-		salt = uint64(rapid.IntRange(1, 1<<20).Draw(rt, label+"_salt"))
-	}
-	return variant(b, salt)
-}
-
 // ---- wire builders (independent of the library's message encoders) -----------
 
 func pointNode(slot uint64, hash []byte) *xcbor.Node {
@@ -256,6 +245,16 @@ func (s *session) close() {
 	}
 }
 
+// limitShrinkTime: cases decided by bounded liveness cost their full bound on
+// every shrink attempt, so rapid's default 30 s of shrinking (checked only
+// between attempts) can exhaust the check's time budget. An explicit
+// -rapid.shrinktime on the command line is respected.
+func limitShrinkTime() {
+	if f := flag.Lookup("rapid.shrinktime"); f != nil && f.Value.String() == f.DefValue {
+		_ = flag.Set("rapid.shrinktime", "12s")
+	}
+}
+
 // tb is what the case runners need from *rapid.T / *testing.T.
 type tb interface {
 	Fatalf(format string, args ...any)
@@ -322,5 +321,3 @@ func short(b []byte) string {
 	}
 	return fmt.Sprintf("%x", b)
 }
-
-var _ = bytes.Equal
